@@ -510,6 +510,24 @@ func (fc *FnCtx) evalCall(x *ECall, env *Env) Val {
 		}
 		hn := "G." + tn + "." + lit.Val
 		return intVal(fmt.Sprintf("(select %s %s)", fc.getHeapTerm(h, hn, arrOf(SInt)), ref))
+	case "box":
+		// box(x): x converted to an interface value (as passed to a parameter of interface type)
+		v := fc.evalExpr(x.Args[0], env)
+		if v.T == nil {
+			fc.fail("box: value of unknown type")
+		}
+		r := fc.makeIface(v.T, v)
+		r.T = types.NewInterfaceType(nil, nil)
+		return r
+	case "funcval":
+		// funcval("pkg.F"): the function value F (as passed to a higher-order function)
+		lit, ok := x.Args[0].(*ELit)
+		if !ok || lit.Kind != "string" {
+			fc.fail("funcval expects a function name string")
+		}
+		name := mangle("func." + lit.Val)
+		fc.declare(name, SInt)
+		return Val{K: KPtr, T: types.NewSignatureType(nil, nil, nil, nil, nil, false), C: []string{name}}
 	case "sends":
 		// sends(): the number of channel sends executed on the path leading here
 		return intVal(fc.getHeapTerm(h, "$sends", SInt))
